@@ -422,3 +422,30 @@ PROPS["C12"]["quick"]["require_labels"] = ["decimal-literal-of-tens-of-thousands
 PROPS["C12"]["quick"].update({"configs": ["default", "num01"], "per_config": {"num01": {"cases": 1500000, "sweep": False, "params": {"only_literals": 1}}}})
 PROPS["C12"]["thorough"].update({"configs": ["default", "num01"], "per_config": {"num01": {"cases": 20000000, "sweep": False, "params": {"only_literals": 1}}}})
 PROPS["C14"]["quick"]["require_labels"] = PROPS["C14"]["quick"].get("require_labels", []) + ["many-sharers-of-one-string"]
+
+# second rebalancing: the whole thorough tier should fit in about 4 h on 16 cores
+PROPS["C01"]["thorough"]["cases"] = 8000000
+PROPS["C01"]["thorough"]["per_config"] = {"g2_2_1_4": {"cases": 1500000}}
+PROPS["C02"]["thorough"]["cases"] = 5000000
+PROPS["C03"]["thorough"]["cases"] = 1000000
+PROPS["C03"]["thorough"]["floor_evaluations"] = 6000000
+PROPS["C04"]["thorough"]["cases"] = 300000
+PROPS["C04"]["thorough"]["floor_evaluations"] = 2000000
+PROPS["C05"]["thorough"]["cases"] = 100000
+PROPS["C05"]["thorough"]["floor_evaluations"] = 200000
+PROPS["C06"]["thorough"]["cases"] = 400000
+PROPS["C06"]["thorough"]["floor_evaluations"] = 2000000
+PROPS["C08"]["thorough"]["cases"] = 8000000
+PROPS["C09"]["thorough"]["cases"] = 2500000
+PROPS["C09"]["thorough"]["floor_evaluations"] = 6000000
+PROPS["C12"]["thorough"]["cases"] = 50000000
+PROPS["C14"]["thorough"]["cases"] = 120000
+PROPS["C14"]["thorough"]["floor_evaluations"] = 300000
+PROPS["C16"]["thorough"]["cases"] = 15000000
+PROPS["C17"]["thorough"]["cases"] = 60000000
+PROPS["C18"]["thorough"]["cases"] = 20000000
+PROPS["C19"]["thorough"]["cases"] = 150000
+PROPS["C19"]["thorough"]["floor_evaluations"] = 1500000
+for _id in PROPS:
+    if PROPS[_id]["thorough"].get("fuzz_s"):
+        PROPS[_id]["thorough"]["fuzz_s"] = 150
